@@ -93,7 +93,32 @@ def part_ngram(ctx):
     c06.judge(ctx, items, res, "ngram_mask", lambda it: it["cfg"]["mask"])
 
 
-PARTS = [("cooc", part_cooc), ("ngram", part_ngram)]
+def part_multi_ngramcooc(ctx):
+    """multiset and n-gram co-occurrence vectorizers with masked positions (the generated corpora contain the mask token)"""
+    rng = random.Random(ctx.seed + 2)
+    V = 2
+    pr = {"excluded": [V], "mask": True}
+    base = [cooc_cfg.cfg(k, w, [cooc_cfg.win(o, r)], nullify=nl) for k in ("flat", "geometric") for w in (False, True)
+            for o in ("after", "directional") for r in (1, 2) for nl in (False, True)]
+    for fam, module, consts, inv in (
+            ("multi", "CoocMulti", dict(MaxSet=2, MaxSets=3, MaxDocs=1, AllowMask=True), ["Refines", "WindowMassOne"]),
+            ("ngram", "CoocNgram", dict(N=2, MaxLen=4, MaxDocs=1, AllowMask=True), ["Refines", "WindowMassOne"])):
+        cfgs = rng.sample(base, ctx.pick(8, 24))
+        items = cooc_gen.emit(ctx, V, 1, 1, cfgs, "%s with mask tokens" % module, module=module, invariants=inv, extra_constants=consts)
+        items = [it for it in items if any(t == V for d in it["corpus"] for x in d for t in (x if isinstance(x, list) else [x]))
+                 and any(t != V for d in it["corpus"] for x in d for t in (x if isinstance(x, list) else [x]))]
+        keep = ctx.pick(900 if fam == "multi" else 120, 12000 if fam == "multi" else 1200)
+        if len(items) > keep:
+            ctx.exhaustive = False
+            items = rng.sample(items, keep)
+        for it in items:
+            it.update(prune=pr, family=fam, modes=["ft", "t"], N=2)
+        ctx.log("C14 %s instances:" % fam, len(items))
+        res = pool_map("cooc", "run", items, min_chunk=8 if fam == "ngram" else 100)
+        judge(ctx, items, res, fam + "_mask")
+
+
+PARTS = [("cooc", part_cooc), ("ngram", part_ngram), ("multi_ngramcooc", part_multi_ngramcooc)]
 
 
 def run(ctx):
